@@ -743,12 +743,20 @@ def run(chk, replay=None):
                         modnames.setdefault(n, []).append(e)
             gidx = {(fi, it["name"]): i for i, fi, it in graphs[di][1]}
             bx = dict(x.split("=") for x in boxes.get(di, "").split()) if boxes.get(di) else {}
-            # field lists the model predicts, per ORIGINAL struct name (structs of different files / modules may share it)
-            wants_by_name = {}
+            # field lists the model predicts, per EMITTED struct name (structs of different files / modules may share it: same original
+            # name, or different originals that convert to the same identifier)
+            emitted_of = {}
+            for lab, sibs in sc:
+                if lab.startswith("mod:"):
+                    for (k, n, _), e in zip(sibs, nn.get((di, lab), [])):
+                        emitted_of[(lab[4:], k, n)] = e
+            wants_by_emitted = {}
             for fi, f in enumerate(d["doc"].files):
+                ns = ".".join(f["ns"]) if f["ns"] is not None else d["doc"].stem(fi)
                 for it in f["items"]:
                     if it["kind"] in ("struct", "exception"):
-                        wants_by_name.setdefault(it["name"], []).append(list(nn.get((di, "%s:%s" % (f["name"], it["name"])), [])) + (["_unknown_fields"] if c["keep"] else []))
+                        e = emitted_of.get((ns, it["kind"], it["name"]))
+                        wants_by_emitted.setdefault(e, []).append(list(nn.get((di, "%s:%s" % (f["name"], it["name"])), [])) + (["_unknown_fields"] if c["keep"] else []))
             for fi, f in enumerate(d["doc"].files):
                 for it in f["items"]:
                     if it["kind"] not in ("struct", "exception"):
@@ -761,7 +769,8 @@ def run(chk, replay=None):
                     want = pred + (["_unknown_fields"] if c["keep"] else [])
                     dist["struct_blocks_compared"] += 1
                     hit = [b2 for b2 in blocks if [x for x, _ in b2] == want]
-                    if not hit and c["iu"] and all([x for x, _ in b2] in wants_by_name.get(it["name"], []) for b2 in blocks):
+                    explained = lambda b2: any([x for x, _ in b2] in wants_by_emitted.get(e, []) for e in modnames.get(it["name"], []))
+                    if not hit and c["iu"] and all(explained(b2) for b2 in blocks):
                         # ignore_unused: this struct is not generated; the blocks of that name belong to equally named structs of other
                         # files, and each of them is what the model predicts for one of those
                         dist["struct_blocks_compared"] -= 1
